@@ -236,8 +236,7 @@ impl<H: HK> Db<H> {
         // still exiting): every check except C20 tolerates a bounded wait here and counts it.
         let t0 = std::time::Instant::now();
         loop {
-            let o = cfg.options(dir);
-            match guard("Nomt::open", || Nomt::<H::N>::open(o)) {
+            match guard("Nomt::open", || Nomt::<H::N>::open(cfg.options(dir))) {
                 Ok(nomt) => {
                     return Ok(Db {
                         nomt,
